@@ -1,6 +1,7 @@
 import MlModel.Lemmas.Pipe
 import MlModel.Lemmas.PipeBatch
 import MlModel.Lemmas.Iter
+import MlModel.Lemmas.PipeSource
 /-!
 # C12 — error skipping drops only failing elements; otherwise the first error surfaces
 
@@ -242,6 +243,75 @@ theorem C12_first_error_batched_partial (ops : List Op) (src : List (Ev Val))
   simp only [Impl.run, hspec]
   exact this
 
+/-! ## failing SOURCES behind the threaded runner's lock wrapper
+
+With `num_threads ≥ 1` over one un-sharded source, `piter_fn` wraps the source in
+`_ThreadSafeIterator` (`Iter.tsNext`: `with self._lock: return next(self._iterator)`) and every worker
+thread pulls from that one wrapper.  The source is a *resumable* iterator when it is a class-based
+iterator (`SequenceDataSource`'s `_RangeIterator`, a user iterator class): a read that raises a
+skippable error is one event, the next read continues (`C12_iter_kinds`). -/
+
+/-- **C12_threadsafe_transparent.**  For every wrapped iterator (any state machine `next`, any state):
+the wrapper hands out exactly the results of the wrapped iterator's successive `next()` calls —
+sequentially (`drain`), and under every schedule of worker threads (`tsServe`: the events in the order in
+which the calls got the lock; each event goes to exactly one worker); and the lock is free again after
+every call, also after one that raised (`with`), so the call after a failing read is never blocked. -/
+theorem C12_threadsafe_transparent {α σ : Type} (next : σ → Step α σ) (s : σ) :
+    (∀ fuel, drain (tsNext next) fuel { inner := s } = drain next fuel s) ∧
+    (∀ sched : List Nat, (tsServe next sched { inner := s }).map (·.2) = drain next sched.length s) ∧
+    tsFreeAfter next { inner := s } = true :=
+  ⟨fun fuel => drain_ts next fuel s false, fun sched => tsServe_events next sched s false,
+   tsFreeAfter_true next s⟩
+
+/-- **C12_threadsafe_resumable.**  A RESUMABLE source behind the wrapper stays resumable: whichever
+workers call in whichever order (at least as many calls as the source has outcomes), the events handed
+out are *all* outcomes of the source, in order — the elements behind a failing read included; a
+generator source behind the wrapper stays a generator (nothing after its first raise exists). -/
+theorem C12_threadsafe_resumable {α : Type} (evs : List (Ev α)) (sched : List Nat)
+    (h : evs.length < sched.length) :
+    (tsServe cursorNext sched { inner := evs }).map (·.2) = evs ∧
+    (tsServe (genNext cursorNext) sched { inner := some evs }).map (·.2) = cutAfterErr evs := by
+  constructor
+  · rw [tsServe_events, drain_cursor evs _ h]
+  · rw [tsServe_events, drain_gen, drain_cursor evs _ h]
+
+/-- **C12_skip_source_partial** (failing SOURCES, not failing functions).  A chain whose first operator is
+an un-batched `apply` / `select`, over ANY finite source — every number and position of failing reads,
+every error kind, no `Clean` condition on the source: with skipping on, what the caller observes is the
+reference run over the source *from which exactly the skippable failing reads have been removed*
+(`Ref.skipNT true`: the successful reads all survive, in order — `oks_skipNT` —, a non-skippable
+failing read stays and ends the run).  So an element behind a failing read is never lost.
+
+Partial: the operators behind the first satisfy the conditions of `C12_skip_partial` on the stream
+they receive (`hc`); a first operator `assign` / `filter` / `sink` is **false** on the real code
+(finding F-C12-passed-on, `C12_passed_on_witness`); batched first operators: `C12_skip_batched_partial`
+(`Ref.skipNT` is built into `Ref.batchedCols` there). -/
+theorem C12_skip_source_partial (op : Op) (ops : List Op) (hk : op.kind = .select ∨ op.kind = .apply)
+    (hop : OpOK op) (hops : ∀ o ∈ ops, OpOK o) (src : List (Ev Val))
+    (hc : Ref.CleanRun true ops (Ref.opEvents true op op.s0 (Ref.skipNT true src))) :
+    ((Impl.run true (op :: ops) src).out, (Impl.run true (op :: ops) src).err)
+      = observe (Ref.chainEvents true (op :: ops) (Ref.skipNT true src)) ∧
+    oks (Ref.skipNT true src) = oks src := by
+  refine ⟨?_, oks_skipNT true src⟩
+  simp only [Impl.run, topEvents_src_spec true op ops hk hop hops src hc]
+
+/-- **C12_skip_threaded_source_partial.**  `C12_skip_source_partial` for the one-worker threaded runner
+(`num_threads = 1` over one un-sharded, resumable source): the worker's operator chain reads the
+source through the lock wrapper, i.e. it sees `drain (tsNext cursorNext)` of the source's outcomes —
+and what it produces is the reference run over the source with exactly the skippable failing reads
+removed.  (The queue between the worker and the caller is C04 / C13; with several workers each event
+of the source still goes to exactly one of them: `C12_threadsafe_transparent`.) -/
+theorem C12_skip_threaded_source_partial (op : Op) (ops : List Op)
+    (hk : op.kind = .select ∨ op.kind = .apply) (hop : OpOK op) (hops : ∀ o ∈ ops, OpOK o)
+    (src : List (Ev Val))
+    (hc : Ref.CleanRun true ops (Ref.opEvents true op op.s0 (Ref.skipNT true src)))
+    (fuel : Nat) (hf : src.length < fuel) :
+    ((Impl.run true (op :: ops) (drain (tsNext cursorNext) fuel { inner := src })).out,
+     (Impl.run true (op :: ops) (drain (tsNext cursorNext) fuel { inner := src })).err)
+      = observe (Ref.chainEvents true (op :: ops) (Ref.skipNT true src)) := by
+  rw [drain_ts, drain_cursor src fuel hf]
+  exact (C12_skip_source_partial op ops hk hop hops src hc).1
+
 /-! ## non-vacuity -/
 
 /-- `apply(v_fail_on{3}, input_keys='v', output_keys='o', fn_batch_size=2, batch_size=2)`-like: the
@@ -315,5 +385,46 @@ example : RunOKG true [{ exFailB with fnBatch := 0 }] exSrcUnreadable :=
 
 example : (Impl.run true [{ exFailB with fnBatch := 0 }] exSrcUnreadable).out.map colInts = [[0, 2]] ∧
     (Impl.run true [{ exFailB with fnBatch := 0 }] exSrcUnreadable).err = none := by decide +kernel
+
+/-- a wrapper that is NOT the code's: it remembers "done" after ANY exception of the wrapped iterator
+(`except BaseException: self._finished = True; raise`) — the class of change the transparency
+theorem excludes -/
+def latchNext {α σ : Type} (next : σ → Step α σ) : TS σ × Bool → Step α (TS σ × Bool)
+  | (_, true) => .stop
+  | (t, false) =>
+    match tsNext next t with
+    | .yield a t' => .yield a (t', false)
+    | .stop => .stop
+    | .raise e t' => .raise e (t', true)
+
+/-- a source whose second read fails and that can be read further: behind the code's wrapper all
+four outcomes are handed out (to workers 0 and 1 in turn); behind the latching wrapper the stream ends
+at the failing read -/
+example :
+    (tsServe cursorNext [0, 1, 0, 1, 0] { inner := ([.ok 0, .error { kind := .value }, .ok 2, .ok 3] : List (Ev Nat)) })
+      = [(0, .ok 0), (1, .error { kind := .value }), (0, .ok 2), (1, .ok 3)] ∧
+    drain (latchNext cursorNext) 5 ({ inner := ([.ok 0, .error { kind := .value }, .ok 2, .ok 3] : List (Ev Nat)) }, false)
+      = [.ok 0, .error { kind := .value }] :=
+  ⟨rfl, rfl⟩
+
+/-- a source with a skippable failing read in the middle, in front of an `apply` and an `assign`: the
+hypotheses of `C12_skip_source_partial` hold, and the element behind the failing read arrives -/
+def exSrcFail : List (Ev Val) :=
+  [.ok (.dict [("a", .int 3)]), .error { kind := .value }, .ok (.dict [("a", .int 7)])]
+
+def exAssignAfter : Op :=
+  { kind := .assign, inKeys := [.name "y"], outKeys := [.key (.name "z")],
+    fn := fun s args _ => (match args with | [.int i] => .ok (.int (i + 1)) | _ => .error .type, s) }
+
+example : OpOK exAssignAfter :=
+  ⟨⟨rfl, rfl⟩, fun k k' rest h => by simp [exAssignAfter] at h, fun h => by simp [exAssignAfter] at h⟩
+
+example : Ref.CleanRun true [exAssignAfter] (Ref.opEvents true exFail exFail.s0 (Ref.skipNT true exSrcFail)) :=
+  cleanRunB_sound _ _ _ (by decide +kernel)
+
+example : (Impl.run true [exFail, exAssignAfter] exSrcFail).out.length = 2 ∧
+    (Impl.run true [exFail, exAssignAfter] exSrcFail).err = none ∧
+    (Impl.run true [exFail, exAssignAfter] (drain (tsNext cursorNext) 9 { inner := exSrcFail })).out.length = 2 := by
+  decide +kernel
 
 end MlModel.C12
